@@ -15,8 +15,10 @@
 in a Gaussian and non-Gaussian circuit."""
 
 import networkx as nx
+import numpy as np
 
 import strawberryfields.program_utils as pu
+from strawberryfields.parameters import par_evaluate
 
 from .compiler import Compiler
 from .gaussian_unitary import GaussianUnitary
@@ -188,6 +190,11 @@ class GaussianMerge(Compiler):
                     gaussian_transform = GaussianUnitary().compile(
                         unified_operations, list(merged_registers.values())
                     )
+                    if self.is_unchanged_by_merge(unified_operations, gaussian_transform):
+                        # e.g. displacement gates of different modes: replacing them by themselves is
+                        # no progress, and reporting it as a merge would never end
+                        continue
+
                     # the merged operations may cancel each other, then nothing replaces them
                     self.new_DAG.add_nodes_from(gaussian_transform[:1])
 
@@ -314,6 +321,26 @@ class GaussianMerge(Compiler):
             if all_displacement_gates:
                 return True
         return False
+
+    @staticmethod
+    def is_unchanged_by_merge(merged_ops, gaussian_transform):
+        """
+        Helper function that determines if the operations returned by the Gaussian unitary compiler are the
+        merged operations again (same operations on the same qumodes with the same parameters, in any order).
+        """
+        if len(merged_ops) != len(gaussian_transform):
+            return False
+
+        def key(cmd):
+            return (get_op_name(cmd), get_qumodes_operated_upon(cmd))
+
+        for old, new in zip(sorted(merged_ops, key=key), sorted(gaussian_transform, key=key)):
+            if key(old) != key(new) or getattr(old.op, "dagger", False):
+                return False
+            for p_old, p_new in zip(par_evaluate(old.op.p), par_evaluate(new.op.p)):
+                if np.shape(p_old) != np.shape(p_new) or not np.allclose(p_old, p_new):
+                    return False
+        return True
 
     def non_gaussian_qumodes_dependecy(self, op):
         """
